@@ -46,11 +46,18 @@ static std::string unhex(const std::string& h)
     return r;
 }
 
+// the fixed bindings of the generator: p -> urn:p, q -> urn:q
 class NoPrefixes : public PrefixResolver
 {
 public:
-    XalanDOMString m_uri;
-    virtual const XalanDOMString* getNamespaceForPrefix(const XalanDOMString&) const { return 0; }
+    XalanDOMString m_uri, m_p, m_q;
+    NoPrefixes() { const char* a = "urn:p"; const char* b = "urn:q"; for (; *a; ++a) m_p.append(1, (XalanDOMChar) *a); for (; *b; ++b) m_q.append(1, (XalanDOMChar) *b); }
+    virtual const XalanDOMString* getNamespaceForPrefix(const XalanDOMString& pre) const
+    {
+        if (pre.length() == 1 && pre[0] == 'p') return &m_p;
+        if (pre.length() == 1 && pre[0] == 'q') return &m_q;
+        return 0;
+    }
     virtual const XalanDOMString& getURI() const { return m_uri; }
 };
 
